@@ -61,6 +61,7 @@ typedef struct sim_scanner_vt {
 	int default_rule;         /* number given to the default rule in logs */
 	int has_tables;           /* built with --tables-file */
 	void (*exec_top)(struct sim_inst *I, const sim_xop *op);
+	int no_mem_buffers;       /* the flavour has no yy_scan_bytes/string/buffer (C++) */
 } sim_scanner_vt;
 void sim_register(const sim_scanner_vt *vt);
 
